@@ -12,7 +12,7 @@ Python equivalents of various excel functions
 """
 import math
 import sys
-from decimal import Decimal, ROUND_DOWN, ROUND_HALF_UP, ROUND_UP
+from decimal import Context, Decimal, ROUND_DOWN, ROUND_HALF_UP, ROUND_UP
 
 import numpy as np
 
@@ -291,24 +291,31 @@ def round_(number, num_digits=0):
     # Excel reference: https://support.microsoft.com/en-us/office/
     #   ROUND-function-c018c5d8-40fb-4053-90b1-b3e7f61a213c
 
-    num_digits = int(num_digits)
-    if num_digits >= 0:  # round to the right side of the point
-        return float(Decimal(repr(number)).quantize(
-            Decimal(repr(pow(10, -num_digits))),
-            rounding=ROUND_HALF_UP
-        ))
-        # see https://docs.python.org/2/library/functions.html#round
-        # and https://gist.github.com/ejamesc/cedc886c5f36e2d075c5
+    # round half up on the decimal (not the binary) value
+    # see https://docs.python.org/2/library/functions.html#round
+    # and https://gist.github.com/ejamesc/cedc886c5f36e2d075c5
+    return _round(number, num_digits, rounding=ROUND_HALF_UP)
 
-    else:
-        # the builtin round() is round half even, on the binary value
-        return _round(number, num_digits, rounding=ROUND_HALF_UP)
+
+# enough precision for every digit of any float: the default context (28
+# digits) cannot hold e.g. 2.5 quantized to 28 places or 1e28 to 0 places
+_ROUND_CONTEXT = Context(prec=800)
 
 
 def _round(number, num_digits, rounding):
-    num_digits = int(num_digits)
+    # no float has a digit beyond these positions
+    num_digits = max(-400, min(400, int(num_digits)))
     quant = Decimal(f'1E{"+-"[num_digits >= 0]}{abs(num_digits)}')
-    return float(Decimal(repr(number)).quantize(quant, rounding=rounding))
+    if isinstance(number, int):
+        # whole floats arrive as int: 1e23 is to be rounded as 1e23 and
+        # not as the 99999999999999991611392 it is stored as
+        try:
+            number = float(number)
+        except OverflowError:
+            return NUM_ERROR
+    result = float(Decimal(repr(number)).quantize(
+        quant, rounding=rounding, context=_ROUND_CONTEXT))
+    return NUM_ERROR if math.isinf(result) else result
 
 
 @excel_math_func
